@@ -17,6 +17,8 @@ C13, the non-element parts of the dictionary.
 import WntrModel.Model.SchemaSections
 import WntrModel.Gen.SchemaSections
 import WntrModel.Props.C13
+import Mathlib.Tactic.Linarith
+import Mathlib.Algebra.Order.Field.Rat
 
 namespace Wntr.Schema
 
@@ -331,6 +333,84 @@ theorem readsAll_iff_repaired : Gen.simpleReader.readsAll = !Gen.simpleReader.vi
   rcases generated_reader_known with h | h <;> rw [h] <;> decide
 
 end Wntr.Schema.Ctl
+
+/-! ### setters -/
+namespace Wntr.Schema.Setters
+
+variable {V : Type}
+
+/-- **`generated_setters_idempotent`**: no property setter of base.py / elements.py and no `__setattr__` of an option group does
+anything to its argument but transformations that fix their own image (decided on the table read by `ast` on every run;
+a setter doing arithmetic on its argument, or calling something unknown, is listed here by name) -/
+theorem generated_setters_idempotent : suspicious Gen.setterRows = [] := by decide +kernel
+
+theorem abs_int_idem (z : Int) : (if (if z < 0 then -z else z) < 0 then -(if z < 0 then -z else z) else (if z < 0 then -z else z)) = (if z < 0 then -z else z) := by
+  by_cases h : z < 0 <;> simp [h] <;> omega
+
+theorem clip_idem (lo z : Int) : (if (if z < lo then lo else z) < lo then lo else (if z < lo then lo else z)) = (if z < lo then lo else z) := by
+  by_cases h : z < lo <;> simp [h]
+
+theorem abs_rat_idem (q : Rat) : (if (if q < 0 then -q else q) < 0 then -(if q < 0 then -q else q) else (if q < 0 then -q else q)) = (if q < 0 then -q else q) := by
+  by_cases h : q < 0
+  · have : ¬ (-q < 0) := by linarith
+    simp [h, this]
+  · simp [h]
+
+/-- the executable transformations fix their image, whatever the value -/
+theorem applyAtom_idem (lo : Int) (a : Atom) (v : JV) : applyAtom lo a (applyAtom lo a v) = applyAtom lo a v := by
+  cases a <;> cases v <;> first
+    | rfl
+    | (simp only [applyAtom]; rw [abs_int_idem])
+    | (simp only [applyAtom]; rw [clip_idem])
+    | (simp only [applyAtom]; rw [abs_rat_idem])
+
+/-- `max(lo, int(x))` as a chain: the image of the chain is fixed by the chain -/
+theorem clip_int_idem (lo : Int) (v : JV) :
+    applyAtom lo .clip (applyAtom lo .toInt (applyAtom lo .clip (applyAtom lo .toInt v))) = applyAtom lo .clip (applyAtom lo .toInt v) := by
+  cases v <;> first | rfl | (simp only [applyAtom]; rw [clip_idem])
+
+/-- **`setters_roundtrip`**: when `from_dict` assigns every restored key through a setter, and the object's values are what those
+setters store (values built through the API: `o k = set k raw`, with `set k` idempotent), the dictionary is reproduced exactly:
+`to_dict (from_dict (to_dict o)) = to_dict o`, with no normalisation left over -/
+theorem setters_roundtrip (s : Schema V) (set : Key → V → V) (hplain : ∀ k, s.derive k = none)
+    (hidem : ∀ k x, set k (set k x) = set k x) (raw : Key → V) (o : Key → V)
+    (ho : ∀ k, s.restore k = true → o k = set k (raw k))
+    (hrest : ∀ k ∈ s.emit, s.restore k = true ∨ o k = s.dflt k) :
+    s.toDict (fromDictSet s set (s.toDict o)) = s.toDict o := by
+  simp only [Schema.toDict]
+  apply List.map_congr_left
+  intro k hk
+  simp only [Schema.emitVal, hplain, Prod.mk.injEq, true_and]
+  by_cases hr : s.restore k = true
+  · simp only [fromDictSet, hr, if_true]
+    have := lookupD_toDict s o k (s.dflt k) hk
+    simp only [Schema.toDict, Schema.emitVal, hplain] at this
+    rw [this, ho k hr, hidem]
+  · have hr' : s.restore k = false := by simpa using hr
+    rcases hrest k hk with h | h
+    · exact absurd h hr
+    · simp [fromDictSet, hr', h]
+
+/-- and a second cycle changes nothing either (what the harness checks on the implementation: to_dict∘from_dict is stable from the first cycle on) -/
+theorem setters_second_cycle (s : Schema V) (set : Key → V → V) (hplain : ∀ k, s.derive k = none)
+    (hidem : ∀ k x, set k (set k x) = set k x) (d : List (Key × V)) (hall : ∀ k ∈ s.emit, s.restore k = true) :
+    s.toDict (fromDictSet s set (s.toDict (fromDictSet s set d))) = s.toDict (fromDictSet s set d) := by
+  apply setters_roundtrip s set hplain hidem (fun k => lookupD d k (s.dflt k))
+  · intro k hk; simp [fromDictSet, hk]
+  · intro k hk; exact Or.inl (hall k hk)
+
+/-- a setter that is NOT idempotent breaks the second cycle: `x ↦ x + 1` -/
+theorem nonidempotent_setter_counterexample :
+    let s : Schema Nat := { emit := ["a"], restore := fun _ => true, derive := fun _ => none, dflt := fun _ => 0 }
+    s.toDict (fromDictSet s (fun _ x => x + 1) (s.toDict (fromDictSet s (fun _ x => x + 1) [("a", 5)]))) ≠
+      s.toDict (fromDictSet s (fun _ x => x + 1) [("a", 5)]) := by
+  decide
+
+/-- the table condition is not vacuous: a row with arithmetic on the argument is listed -/
+example : suspicious [{ cls := "Pipe", key := "length", atoms := [.toFloat, .other], validates := false }] = [("Pipe", "length")] := by decide
+example : (Gen.setterRows.any fun r => r.cls == "TimeOptions" && r.atoms.contains .clip) = true := by decide +kernel
+
+end Wntr.Schema.Setters
 
 /-! ### append into a non-empty model -/
 namespace Wntr.Schema.App
